@@ -167,6 +167,35 @@ func scenarios(r *hlib.Rng) []In {
 		add("start-mid", retry, 4, pre,
 			one(epoch(0)), settleLast(), one(h.block(0, 1, 0)), one(epoch(0)), settleLast(), one(status(0)))
 	}
+	// certificates that exist before the sender starts (restart on an existing database / table rebuilt from the Agglayer)
+	for _, retry := range []bool{true, false} {
+		seeded := func(tag string, seeds []Seed, steps ...[]Step) {
+			h := &hist{r: r}
+			pre := []Step{h.block(0, 1, 1), h.block(0, 1, 0), h.block(0, 2, 0)} // blocks 1,2,3
+			in := In{Retry: retry, Pre: pre, Seeds: seeds, Tag: tag}
+			for _, ss := range steps {
+				for _, st := range ss {
+					if st.K == "block" && st.Evs == nil && st.Skip == 99 { // placeholder: a fresh block with one bridge
+						st = h.block(0, 1, 0)
+					}
+					in.Steps = append(in.Steps, st)
+				}
+			}
+			out = append(out, in)
+		}
+		fresh := []Step{{K: "block", Skip: 99}}
+		// a certificate in error whose row was rebuilt from version-0 metadata (FromBlock = 0): the replacement would not
+		// start at the same block, the node must refuse to build it (verifyRetryCertStartingBlock)
+		seeded("seed-v0-inerror", []Seed{{Height: 0, Status: stSettled, From: 1, To: 2}, {Height: 1, Status: stInError, From: 0, To: 3}},
+			one(epoch(0)), one(status(0)), fresh, one(epoch(0)), one(status(0)), one(epoch(0)))
+		seeded("seed-settled", []Seed{{Height: 0, Status: stSettled, From: 1, To: 2}},
+			one(epoch(0)), settleLast(), fresh, one(epoch(0)), one(moveLast(stInError)), one(status(0)), one(epoch(0)), settleLast(), one(epoch(0)))
+		seeded("seed-inerror", []Seed{{Height: 0, Status: stSettled, From: 1, To: 1}, {Height: 1, Status: stInError, From: 2, To: 3, Retry: 1}},
+			one(status(0)), one(epoch(0)), settleLast(), fresh, one(epoch(0)), settleLast(), one(status(0)))
+		seeded("seed-pending", []Seed{{Height: 0, Status: stPending, From: 1, To: 2}},
+			one(epoch(0)), one(moveLast(stProven)), one(status(0)), one(moveLast(stCandidate)), one(epoch(0)), one(moveLast(stInError)),
+			one(status(0)), one(epoch(0)), settleLast(), one(epoch(0)))
+	}
 	return out
 }
 
@@ -187,7 +216,36 @@ func walk(r *hlib.Rng, n int) In {
 			in.StartBlock = num - 1 - uint64(r.Intn(int(num-1)))
 		}
 	}
+	// half of the walks that have a pre-history start from an existing certificate table
+	if len(in.Pre) > 0 && r.Intn(2) == 0 {
+		num := uint64(0)
+		var nums []uint64
+		for _, s := range in.Pre {
+			num += s.Skip + 1
+			if num > in.StartBlock {
+				nums = append(nums, num)
+			}
+		}
+		from := in.StartBlock + 1
+		for i, n := range nums {
+			if r.Intn(3) == 0 {
+				continue // this block joins the next certificate's range
+			}
+			st := stSettled
+			if i == len(nums)-1 || r.Intn(4) == 0 {
+				st = r.Intn(5)
+			}
+			in.Seeds = append(in.Seeds, Seed{Height: uint64(len(in.Seeds)), Status: st, From: from, To: n, Retry: 0})
+			from = n + 1
+			if st != stSettled {
+				break
+			}
+		}
+	}
 	guess := -1 // guessed status of the latest certificate (-1: none / closed)
+	if n := len(in.Seeds); n > 0 && in.Seeds[n-1].Status != stSettled {
+		guess = in.Seeds[n-1].Status
+	}
 	maxes := []uint{0, 0, 0, 0, 1, 200, 400, 3100, 6000}
 	for len(in.Steps) < n {
 		x := r.Intn(100)
